@@ -50,14 +50,14 @@ UNPROVED = [
 MANIFEST = {
     "text": ("Lean 4 theorems: for a model of every remaining map-ranging computation of the consensus code (pool-record updates after LPPD and depth "
              "rewards, the logged sum, the oracle tally) the resulting state is the same for every permutation of the iteration order, by List.Perm "
-             "induction; for the two payout loops that ranged over maps before repair F15 the order-independence is proved under 'recipients have "
+             "induction; for the two payout loops that ranged over maps before repair F20 the order-independence is proved under 'recipients have "
              "accounts' with a machine-checked counterexample without it (account numbers are assigned in creation order), and the repaired code sorts "
              "the keys.  Tie 1: a go/types scan regenerates every range-over-map site (with loop body calls and exits) and every float/math/time/rand/"
              "goroutine use; `decide` obligations require each to be a reviewed, covered site.  Tie 2 (a TEST, not a proof): the real application is "
              "driven through InitChain/BeginBlock/DeliverTx/EndBlock/Commit with signed transactions on generated all-module histories, N = 8/64 times "
              "in fresh instances and separate processes; app hashes and DeliverTx {Code,Data,GasWanted,GasUsed} are judged equal by a Lean predicate."),
     "note": ("Proof covers the LOGIC of order-independence on hand-written models and the completeness of the site list; it cannot cover the Go runtime's "
-             "map order, float code generation, IAVL or encoders — those are only exercised by re-execution on this machine.  Found and repaired: F15 "
+             "map order, float code generation, IAVL or encoders — those are only exercised by re-execution on this machine.  Found and repaired: F20 "
              "(LPPD / epoch payouts in Go-map order create accounts in nondeterministic order when providers from a hand-made genesis have no account: "
              "app hashes diverged between runs); confirms F2's consensus impact (tied claims of de-whitelisted validators: final claim chosen by map order)."),
     "technique": "Lean 4 proof (perm-invariance + regenerated site list) + N-fold differential re-execution of the real app (test)",
